@@ -87,36 +87,36 @@ func (s *Script) Argv(tag string, reportFd int) []string {
 
 // FD is one line of "report:fds".
 type FD struct {
-	N            int
-	Dev, Ino     uint64
-	Mode         uint32
-	FdFlags      int64
-	FlFlags      int64
-	Offset       int64
+	N        int
+	Dev, Ino uint64
+	Mode     uint32
+	FdFlags  int64
+	FlFlags  int64
+	Offset   int64
 }
 
 // Report is a parsed vprobe report.
 type Report struct {
-	R       map[int]int64 // op index -> return value (last one wins; processes print the same index for nested blocks)
-	RAll    map[int][]int64
-	Order   []int
-	FDs     []FD
-	FDsDone bool
-	IDs     map[string][]int64
-	Caps    map[string]uint64
-	CapsOK  bool
-	Limits  map[int][2]uint64
-	Cwd     string
-	Node    string
-	Domain  string
-	Mounts  []string
+	R          map[int]int64 // op index -> return value (last one wins; processes print the same index for nested blocks)
+	RAll       map[int][]int64
+	Order      []int
+	FDs        []FD
+	FDsDone    bool
+	IDs        map[string][]int64
+	Caps       map[string]uint64
+	CapsOK     bool
+	Limits     map[int][2]uint64
+	Cwd        string
+	Node       string
+	Domain     string
+	Mounts     []string
 	MountsDone bool
-	NS      map[string]string
-	Walk    []WalkEnt
-	WalkDone bool
-	Cat     map[int]string
-	Writes  map[int][2]uint64 // grow: nwrites, shortwrites
-	Raw     string
+	NS         map[string]string
+	Walk       []WalkEnt
+	WalkDone   bool
+	Cat        map[int]string
+	Writes     map[int][2]uint64 // grow: nwrites, shortwrites
+	Raw        string
 }
 
 // WalkEnt is a "D" line.
